@@ -506,6 +506,7 @@ func FuzzC03(f *testing.F) {
 			c.Body = c.Body[1+k:]
 		}
 		if res := checkC03(c, nil); res.Err != nil {
+			kit.FuzzReport("TestC03", c, res.Err)
 			t.Fatalf("%v", res.Err)
 		}
 	})
